@@ -320,7 +320,8 @@ pub fn run_parent(
                 for f in v["findings"].as_array().unwrap_or(&vec![]) {
                     let sig = format!("{prefix}:{}", f["signature"].as_str().unwrap_or("?"));
                     let n = f["count"].as_u64().unwrap_or(1);
-                    *total.violation_sigs.entry(sig.clone()).or_insert(0) += n.saturating_sub(1);
+                    let extra = n.saturating_sub(1);
+                    let sig_for_count = sig.clone();
                     total.violation(Violation {
                         property: property.to_string(),
                         signature: sig,
@@ -341,6 +342,7 @@ pub fn run_parent(
                         ),
                         case: json!({"cfg": cfgs[i], "first_execution": f["first_execution"], "signature": f["signature"]}),
                     });
+                    *total.violation_sigs.entry(sig_for_count).or_insert(0) += extra;
                 }
             }
         }
